@@ -209,6 +209,9 @@ def rawChecks (prop : String) (line implLine : String) : Option String :=
       (a.probe.map sortedEffs) == (b.probe.map sortedViews)) p.steps r.steps
     -- events are exposed per step by the direct host only (Core-like hosts: see the log)
     let evsEq := zipAll (fun (a : PObs) (b : Obs) => a.probe.isSome || sortedEvs a.events == sortedEvs b.events) p.steps r.steps
+    let effsSeq := zipAll (fun (a : PObs) (b : Obs) =>
+      a.effs.map (fun e => (e.n, e.v, e.kind)) == b.effs.map (fun e => (e.n, e.v, e.kind))) p.steps r.steps
+    let evsSeq := zipAll (fun (a : PObs) (b : Obs) => a.probe.isSome || a.events == b.events) p.steps r.steps
     let resEq := zipAll (fun (a : PObs) (b : Obs) => a.res == b.res) p.steps r.steps
     let tokEq (pre : String) := zipAll (fun (a : PObs) (b : Obs) =>
       tailTok pre a.tail == tailTok pre (b.tail.splitOn " ")) p.steps r.steps
@@ -261,6 +264,13 @@ def rawChecks (prop : String) (line implLine : String) : Option String :=
         guard (tokEq "R[") "registry-differs",
         guard resEq "routing-result-differs",
         guard logMulti "view-differs"]
+    | "C11" => firstSome [
+        -- the core is a function of its input history: the SEQUENCE of effects and events of every step (not only the
+        -- multiset) is the one the reference semantics computes from the history
+        guard stepsAligned "steps-misaligned",
+        guard resEq "result-differs-from-reference",
+        guard effsSeq "effect-order-not-a-function-of-the-history",
+        guard evsSeq "event-order-not-a-function-of-the-history"]
     | "C12" => firstSome [
         guard stepsAligned "steps-misaligned",
         guard resEq "error-class-differs",
